@@ -34,10 +34,10 @@ BASE2 = "0ca368f"  # the commit the second refactoring campaign (selftest/benign
 
 BASE3 = "a7bae30"  # third refactoring campaign (selftest/benign/S*.diff)
 
-BASE4 = "a79e858"  # fourth refactoring campaign (selftest/benign/T*.diff)
+BASE4 = "a79e858"  # fourth refactoring campaign (selftest/benign/T*.diff) and the small everyday refactorings (U*.diff)
 
 def benign_base(name):
-    if name.startswith("T"):
+    if name.startswith("T") or name.startswith("U"):
         return BASE4
     if name.startswith("S"):
         return BASE3
